@@ -276,7 +276,7 @@ func c12Pair(r *engine.Run, a, b refEnv) {
 	}
 	d, ok := la.Distance(lb)
 	wd, wok := a.dist(b)
-	if ok != wok || (ok && math.Abs(d-wd) > 1e-15*math.Max(1, wd)) {
+	if ok != wok || (ok && math.Abs(d-wd) > 4e-16*wd) {
 		bad("Distance", fmt.Sprint(d, ok))
 	}
 	if ok && (d == 0) != a.intersects(b) {
